@@ -276,6 +276,23 @@ def check_rollback(ctx):
         # Ok only after the link
         R.dom(ctx, inst, b, hl, A.ok_nodes(b), "Ok(()) only after the hard link", a_desc="fs::hard_link")
         R.guard(ctx, inst, b, A.ok_nodes(b), R.guard_edges_for_call(b, hl, "Ok"), "Ok(()) only on the Ok edge of hard_link")
+    # "an existing destination is never overwritten" includes never *removed*: the destination name may only be unlinked by the
+    # guard that has just linked it itself. hard_link fails with EEXIST when somebody else created the name meanwhile - on that
+    # path, and on every path where this guard never got as far as linking, the file at the destination is not ours.
+    if b is not None:
+        R.guard(ctx, inst, b, rb, R.guard_edges_for_call(b, hl, "Ok"), "the published name is rolled back only after this guard's own hard_link succeeded")
+    R.callers_within(ctx, inst + "/who", "DestinationGuard::rollback_publication", ["DestinationGuard::publish"], floor=3,
+                     what="only publish (after its own successful link) may remove the destination name")
+    n_rm = 0
+    for bb in ctx.prog.product_bodies():
+        if not bb.file.endswith("core/store/migration.rs"):
+            continue
+        for n in bb.calls():
+            if R.call_matches(n.ev, "fs::remove_file") and R.arg_expr(bb, n, 0).has_field("DestinationGuard", "destination"):
+                n_rm += 1
+                ctx.check(path_matches(R.owner_fn(ctx.prog, bb), "DestinationGuard::rollback_publication"), inst, "FORBID", bb.path,
+                          "the destination path is unlinked only inside rollback_publication", bb.where(n.id))
+    ctx.check(n_rm == 1, inst, "anchor", "-", "unlinks of the destination path in migration.rs (expected 1, found %d)" % n_rm, None)
     b = ctx.fn("DestinationGuard::rollback_publication", inst)
     if b is not None:
         rf = ctx.sites(b, R.call("fs::remove_file"), inst, exact=1)
